@@ -1,6 +1,6 @@
 package main
 
 func init() {
-	reg("C14", propCfg{Pkg: "./props/c14", Race: true, Rule: "metamorphic: shared parsed tree vs fresh parse; structural dump before/after; race detector on",
-		Assumptions: assume("the structural dump (internal/dump) shows every field of every node incl. CallExpr.Func and literal reflect.Values", "programs whose behaviour depends on map iteration order are not generated for the result comparison (probes inside multi-entry map loops are compared as multisets)", "a data race reported by the race detector ends the test process abnormally and is reported as inconclusive (exit 2) with the report text")})
+	reg("C14", propCfg{Pkg: "./props/c14", Race: true, RaceIsViolation: true, Rule: "metamorphic: shared parsed tree vs fresh parse; structural dump before/after; race detector on",
+		Assumptions: assume("the structural dump (internal/dump) shows every field of every node incl. CallExpr.Func and literal reflect.Values", "programs whose behaviour depends on map iteration order are not generated for the result comparison (probes inside multi-entry map loops are compared as multisets)", "a data race reported by the race detector whose stacks name package github.com/mattn/anko is reported as a violation (the report text is the saved artefact; not replayable deterministically); other reports make the run inconclusive")})
 }
